@@ -231,7 +231,7 @@ def run_property(ctx, pid):
     built = False
     with core.BuildLock():
         if ctx.regen("sgtables", sgtables.generate):
-            ok, _ = ctx.coq(["Props/%s.vo" % pid], theorems_in={"Props/%s" % pid})
+            ok, _ = ctx.coq(["Props/%s.vo" % pid, "Model/C05_Run.vo"], theorems_in={"Props/%s" % pid})
             if ok:
                 built = build_checker(ctx)
     settings, allops, strata, recs = collect(ctx, (kind,), per_setting=10 ** 6, npts=(4 if thorough else 1))
